@@ -396,7 +396,10 @@ pub fn explore(spec: &CheckSpec, tier: &str, seed: u64) -> Outcome {
     let known = load_known(spec.id);
     let known = &known;
     let thorough = tier_is_thorough(tier);
-    let total = if thorough { spec.cases_thorough } else { spec.cases_quick };
+    let total = std::env::var("LSMV_CASES")
+        .ok()
+        .and_then(|s| s.parse().ok())
+        .unwrap_or(if thorough { spec.cases_thorough } else { spec.cases_quick });
     let mut gen = spec.gen.clone();
     gen.max_ops = if thorough { spec.ops_thorough } else { spec.ops_quick };
     let workers = std::thread::available_parallelism().map_or(8, |n| n.get()).min(16) as u32;
